@@ -84,6 +84,11 @@ type opBucket struct {
 
 	observe func(o opRec) // called (under mu) after every applied mutation
 
+	// lexIter lists in plain lexicographic order of the full names ("<id>/chunks/" before "<id>/index"
+	// before "<id>/meta.json"), as S3, GCS and the filesystem provider do; the in-memory bucket itself
+	// lists files before directories. The order decides in which order block.Delete removes files.
+	lexIter bool
+
 	release  chan struct{}
 	parked   chan struct{}
 	parkOnce sync.Once
@@ -201,14 +206,40 @@ func (b *opBucket) Iter(ctx context.Context, dir string, f func(string) error, o
 	if err := b.read("iter", dir); err != nil {
 		return err
 	}
-	return b.inner.Iter(ctx, dir, f, options...)
+	if !b.lexIter {
+		return b.inner.Iter(ctx, dir, f, options...)
+	}
+	var names []string
+	if err := b.inner.Iter(ctx, dir, func(n string) error { names = append(names, n); return nil }, options...); err != nil {
+		return err
+	}
+	sort.Strings(names)
+	for _, n := range names {
+		if err := f(n); err != nil {
+			return err
+		}
+	}
+	return nil
 }
 
 func (b *opBucket) IterWithAttributes(ctx context.Context, dir string, f func(objstore.IterObjectAttributes) error, options ...objstore.IterOption) error {
 	if err := b.read("iter", dir); err != nil {
 		return err
 	}
-	return b.inner.IterWithAttributes(ctx, dir, f, options...)
+	if !b.lexIter {
+		return b.inner.IterWithAttributes(ctx, dir, f, options...)
+	}
+	var all []objstore.IterObjectAttributes
+	if err := b.inner.IterWithAttributes(ctx, dir, func(a objstore.IterObjectAttributes) error { all = append(all, a); return nil }, options...); err != nil {
+		return err
+	}
+	sort.Slice(all, func(i, j int) bool { return all[i].Name < all[j].Name })
+	for _, a := range all {
+		if err := f(a); err != nil {
+			return err
+		}
+	}
+	return nil
 }
 
 // crashRun is one execution of a component over an opBucket.
@@ -665,6 +696,7 @@ func sortedKeys(m map[string]int64) []string {
 type vScenario struct {
 	Name    string            // deterministic rendering (no temp paths)
 	Segs    int               // chunk segment files of the block under test (non-trivial rule)
+	Lex     bool              // the bucket lists lexicographically (see opBucket.lexIter)
 	Initial map[string][]byte // bucket objects before the component starts
 	Started map[string]bool   // blocks whose deletion already started (deletion mark present initially)
 	// NewLocal creates fresh local state for one sequence of lives (nil if the component has none
@@ -694,6 +726,7 @@ func (l vLife) violation() string {
 func vStartLife(sc vScenario, inner *objstore.InMemBucket, local any, started map[string]bool, failOp, freezeMut int, freezeBefore bool) vLife {
 	ob := newOpBucket(inner)
 	ob.failOp, ob.freezeMut, ob.freezeBefore = failOp, freezeMut, freezeBefore
+	ob.lexIter = sc.Lex
 	viol := new(string)
 	ob.observe = func(o opRec) {
 		if *viol != "" {
